@@ -31,6 +31,8 @@ func Implies(a, b bool) bool                     { sym(); return false }
 // IsLowerASCII: s is pure ASCII without upper-case letters.
 func IsLowerASCII(s string) bool                 { sym(); return false }
 // Deref returns the value a pointer (held in an interface) points to, as an interface value.
+// Arbitrary fills *p with an arbitrary value of its type (string fields of a struct pairwise distinct).
+func Arbitrary(p interface{}, tag string)         { sym() }
 func Deref(p interface{}) interface{}            { sym(); return nil }
 func Assume(b bool)                              { sym() }
 func Assert(b bool, id string)                   { sym() }
